@@ -252,3 +252,82 @@ Proof.
     now rewrite (number_from_ids e_id) in Hin.
   - rewrite Hdids. intros x Hx. apply in_or_app. now left.
 Qed.
+
+(** ** every history of writes to one dataset: the sum of the [newitems] of its batches and
+    transaction shares is the number of distinct entity ids in its change log - whatever the
+    duplicate mode, the write-time equality and the growth of [known] caused by other datasets *)
+Fixpoint run_ds (fl : eqflags) (dm : dup_mode) (d : dstate) (kn : list uri) (t : Z)
+         (ws : list (list ent * list uri)) : dstate * list uri * Z * Z :=
+  match ws with
+  | [] => (d, kn, t, 0)
+  | (ents, extra) :: ws' =>
+    let '(d', kn', ni) := cbatch fl dm (t + 1) ents d (extra ++ kn) in   (* [extra]: ids other datasets made known meanwhile *)
+    let '(d'', kn'', t'', total) := run_ds fl dm d' kn' (t + 1) ws' in
+    (d'', kn'', t'', ni + total)
+  end.
+
+Theorem run_ds_counts fl dm : forall ws d kn t,
+  winv t d -> incl (dids d) kn ->
+  let '(d', kn', t', total) := run_ds fl dm d kn t ws in
+  ndistinct (dids d') = ndistinct (dids d) + total /\ winv t' d' /\ incl (dids d') kn'.
+Proof.
+  induction ws as [|[ents extra] ws IH]; intros d kn t Hw Hk; cbn [run_ds].
+  - split; [lia | split; assumption].
+  - assert (Hk' : incl (dids d) (extra ++ kn)) by (intros x Hx; apply in_or_app; right; now apply Hk).
+    pose proof (cbatch_spec fl dm t (t + 1) ents d (extra ++ kn) Hw ltac:(lia) Hk') as Hs.
+    destruct (cbatch fl dm (t + 1) ents d (extra ++ kn)) as [[d1 kn1] ni].
+    destruct Hs as (_ & Hw1 & Hn1 & _ & _ & Hk1 & _ & _).
+    specialize (IH d1 kn1 (t + 1) Hw1 Hk1).
+    destruct (run_ds fl dm d1 kn1 (t + 1) ws) as [[[d2 kn2] t2] total].
+    destruct IH as (Hn2 & Hw2 & Hk2). split; [lia | split; assumption].
+Qed.
+
+(** ** meta entities *)
+Lemma meta_parse_content m : meta_parse (meta_content m) = m.
+Proof.
+  destruct m as [n [k p] i dl]. unfold meta_parse, meta_content, prop_code.
+  cbn [c_props c_del m_name m_set m_items m_del s_kind s_pub].
+  destruct (Z.eqb_spec k 0) as [->|Hk]; destruct p as [p|]; cbn; try reflexivity.
+Qed.
+
+Lemma digits_pos z : 1 <= digits z <= 7.
+Proof. unfold digits. repeat match goal with |- context [if ?b then _ else _] => destruct b end; lia. Qed.
+
+(** the write-time equality - pinned (length + old keys) or repaired, with or without the nested-entity
+    quirk - never identifies two different meta entities: no write of a changed meta entity is dropped *)
+Lemma meta_sound fl m m' : content_eqb fl (meta_content m) (meta_content m') = true -> m = m'.
+Proof.
+  destruct m as [n [k p] i dl], m' as [n' [k' p'] i' dl'].
+  unfold content_eqb, meta_content, meta_len.
+  cbn [c_props c_del c_refs c_len m_name m_set m_items m_del s_kind s_pub].
+  destruct fl as [lk ob]. cbn [f_lenkeys f_objneq].
+  assert (Hpv : forall a b, pval_eqb {| f_lenkeys := lk; f_objneq := ob |} (pv a) (pv b) = Z.eqb a b).
+  { intros a b. unfold pval_eqb, pv. cbn. destruct ob; cbn; now rewrite andb_true_r. }
+  destruct lk.
+  - (* length + old keys *)
+    rewrite !andb_true_iff. intros [[Hlen Hrefs] Hprops].
+    apply Z.eqb_eq in Hlen.
+    assert (k = k').
+    { remember (type_uri k) as tk eqn:Etk. remember (type_uri k') as tk' eqn:Etk'.
+      cbn in Hrefs. rewrite andb_true_r in Hrefs. unfold rval_eqb in Hrefs. cbn in Hrefs.
+      rewrite andb_true_r in Hrefs. apply Z.eqb_eq in Hrefs. unfold type_uri in Etk, Etk'. lia. }
+    clear Hrefs. subst k'.
+    destruct (Z.eqb_spec k 0) as [->|Hk]; destruct p as [p|], p' as [p'|]; cbn in Hprops;
+      rewrite ?Hpv, ?andb_true_r, ?andb_true_iff in Hprops;
+      repeat match goal with H : _ /\ _ |- _ => destruct H end;
+      repeat match goal with H : Z.eqb _ _ = true |- _ => apply Z.eqb_eq in H end;
+      try discriminate; subst;
+      destruct dl, dl'; try reflexivity; exfalso; pose proof (digits_pos i'); lia.
+  - rewrite !andb_true_iff. intros [[Hdel Hrefs] Hprops].
+    apply eqb_prop in Hdel. subst dl'.
+    assert (k = k').
+    { remember (type_uri k) as tk eqn:Etk. remember (type_uri k') as tk' eqn:Etk'.
+      cbn in Hrefs. unfold rval_eqb in Hrefs. cbn in Hrefs. rewrite !andb_true_r in Hrefs.
+      apply Z.eqb_eq in Hrefs. unfold type_uri in Etk, Etk'. lia. }
+    clear Hrefs. subst k'.
+    destruct (Z.eqb_spec k 0) as [->|Hk]; destruct p as [p|], p' as [p'|]; cbn in Hprops;
+      rewrite ?Hpv, ?andb_true_r, ?andb_true_iff in Hprops;
+      repeat match goal with H : _ /\ _ |- _ => destruct H end;
+      repeat match goal with H : Z.eqb _ _ = true |- _ => apply Z.eqb_eq in H end;
+      try discriminate; subst; reflexivity.
+Qed.
